@@ -299,7 +299,7 @@ where
         match self {
             Self::Value(lhs) => Self::Value(lhs + rhs),
             Self::Expr(lhs) => {
-                let token_stream = quote!(#lhs + #rhs);
+                let token_stream = quote!((#lhs) + #rhs);
                 let expr = syn::parse2(token_stream)
                     .expect("Failed to parse token stream in ValueOrExpr::add");
                 Self::Expr(expr)
